@@ -282,13 +282,16 @@ Definition schedules_of_key (key : list N) : option (list (list (list N))) :=
 
 (* the standard's value when the operation [mode] with this key argument is stopped in pass at_des, iteration at_round, after
    step after_step;  None = there is no such stop point *)
-Definition des_spec (mode : dir) (at_des at_round after_step : nat) (key block : list N) : option (list N) :=
-  match schedules_of_key key with
+Definition des_spec_with (oks : option (list (list (list N)))) (mode : dir) (at_des at_round after_step : nat) (block : list N)
+  : option (list N) :=
+  match oks with
   | Some ks =>
     if Nat.ltb at_des (length (tdea_passes mode ks)) && Nat.leb at_round 15 && Nat.leb after_step 9
     then Some (tdea_state_at mode ks block at_des at_round after_step) else None
   | None => None
   end.
+Definition des_spec (mode : dir) (at_des at_round after_step : nat) (key block : list N) : option (list N) :=
+  des_spec_with (schedules_of_key key) mode at_des at_round after_step block.
 
 (* ------------------------------------------------------------------ byte strings as numbers (for readable vectors) *)
 (* the n bytes of x, most significant first *)
